@@ -635,6 +635,10 @@ def field_names_and_lengths(fixed_cid):
     return result
 
 
+#: Modules imported by :py:func:`import_plugins`.
+_imported_plugin_modules = []
+
+
 def import_plugins(folder_to_scan_for_plugins):
     """
     Import all Python modules found in folder
@@ -661,6 +665,9 @@ def import_plugins(folder_to_scan_for_plugins):
         spec = importlib.util.spec_from_loader(module_name_to_import, loader)
         loaded_module = importlib.util.module_from_spec(spec)
         loader.exec_module(loaded_module)
+        # Keep the module alive; otherwise its classes vanish with the next garbage collection
+        # because __subclasses__() holds only weak references.
+        _imported_plugin_modules.append(loaded_module)
     current_checks = set(checks.AbstractCheck.__subclasses__())  # @UndefinedVariable
     current_field_formats = set(fields.AbstractFieldFormat.__subclasses__())  # @UndefinedVariable
     log_imported_items("fields", base_field_formats, current_field_formats)
